@@ -95,6 +95,9 @@ def apply_edits(src, lo, hi, edits, base_origin):
     """Return list[Piece] for src.text[lo:hi] with edits (absolute offsets) applied."""
     edits = sorted(edits, key=lambda e: (e.start, 0 if e.end == e.start else 1, e.prio))
     pieces, pos = [], lo
+    # an edit that lies inside a larger replaced/dropped range is void (e.g. a built-in rewrite inside a block replaced as a whole)
+    big = [(e.start, e.end) for e in edits if e.end - e.start > 0]
+    edits = [e for e in edits if not any(((a < e.start < b) if e.end == e.start else (a <= e.start and e.end <= b and (b - a) > (e.end - e.start))) for a, b in big)]
     for e in edits:
         if e.start < pos:
             raise ExtractError('overlapping edits near line %d (%r)' % (src.line_of(e.start), e.text[:40]))
